@@ -690,7 +690,8 @@ class Engine:
         else:
             seg = " ".join((frame.module.segment(s) or "").split())
         for label, pattern, exprs in asserts:
-            if " ".join(pattern.split()) in seg:
+            pat = " ".join(pattern.split())
+            if (pat[1:] == seg) if pat.startswith("=") else (pat in seg):      # "=text": the whole statement, not a substring
                 self.vf.matched_asserts.add((con.key, label))
                 for j, ex in enumerate(exprs):
                     self.prove(f"{con.oid_prefix}:assert@{label}#{j + 1}", self.eval_goal(ex, frame), "assert", s, detail=ex, frame=frame)
